@@ -225,6 +225,12 @@ func main() {
 	base := []string{"VSIM_PROP=" + *prop, "VSIM_TIER=" + *tier, "VSIM_SEED=" + strconv.FormatUint(seed, 10), "VSIM_OUT=" + scratch}
 	findings := loadFindings()
 	replayDir := filepath.Join(verifDir, "replays")
+	evidenceDir := filepath.Join(verifDir, "evidence")
+	if os.Getenv("VERIF_NO_EVIDENCE") != "" {
+		// used when judging a seeded change: leave committed evidence and replays alone
+		replayDir = filepath.Join(tmp, "verif-seeded-replays")
+		evidenceDir = filepath.Join(tmp, "verif-seeded-evidence")
+	}
 	os.MkdirAll(replayDir, 0755)
 
 	// ---- replay mode
@@ -511,8 +517,8 @@ func main() {
 		die(2, "no run was executed")
 	}
 	eb, _ := json.MarshalIndent(ev, "", " ")
-	os.MkdirAll(filepath.Join(verifDir, "evidence"), 0755)
-	if err := os.WriteFile(filepath.Join(verifDir, "evidence", *prop+".json"), append(eb, '\n'), 0644); err != nil {
+	os.MkdirAll(evidenceDir, 0755)
+	if err := os.WriteFile(filepath.Join(evidenceDir, *prop+".json"), append(eb, '\n'), 0644); err != nil {
 		die(2, "writing evidence: %v", err)
 	}
 	fmt.Printf("%s %s: %d runs in %.1fs (+%.1fs build), %d distinct non-trivial cases, %d workers, seed %d\n", *prop, *tier, total.Runs, sweepS, buildS, dn, nw, seed)
